@@ -269,7 +269,7 @@ pub fn gen_pipeline(seed: u64, allowed: &[Config], restrict: &Restrict) -> Plan 
     let mut placed = 0;
     while placed < nfaults && tries < 40 {
         tries += 1;
-        let kind = rng.below(16);
+        let kind = rng.below(17);
         if mask & (1 << kind) == 0 {
             continue;
         }
@@ -326,6 +326,23 @@ pub fn gen_pipeline(seed: u64, allowed: &[Config], restrict: &Restrict) -> Plan 
                     };
                     p.medium.push(MFault::Field { at: field_pos(rng), bytes });
                 }
+            }
+            16 => {
+                // the record reads back as unrelated bytes: pure noise, or a plausible first byte
+                // (taken from the reference encoding) followed by noise
+                let rec = rng.below(lens.len());
+                let n = rng.below(nbytes(bits) + 17);
+                let mut bytes = rng.bytes(n);
+                if !bytes.is_empty() && rng.chance(1, 2) {
+                    let one = if framing == Framing::Container { p.records.clone() } else { vec![p.records[rec].clone()] };
+                    let r = (arm.ref_enc)(&p, &one);
+                    for (i, b) in r.iter().take(rng.below(4)).enumerate() {
+                        if i < bytes.len() {
+                            bytes[i] = *b;
+                        }
+                    }
+                }
+                p.medium.push(MFault::Garbage { rec, bytes });
             }
             11 if io_r || (arm.scale_input)(&p) => {
                 let kind = if rng.chance(1, 2) { CutKind::Err } else { CutKind::Eof };
